@@ -36,7 +36,9 @@ class Num:
 
 
 NUM_ALPHABET = set("0123456789.+-eEnaNinfINF")
-LABEL_ALPHABET = set("abcdefghijklmnopqrstuvwxyzABCDEFGHIJKLMNOPQRSTUVWXYZ0123456789_-.")
+# a label / name token stands for any printable text without blanks and without the characters the file formats
+# reserve (value separators , : tab, the missing-value mark ?, quotes, the tag mark @); '#', '/', digits ... are legal
+LABEL_ALPHABET = set(chr(c) for c in range(33, 127)) - set(",:?'\"@")
 MUT = "~"
 
 
@@ -64,6 +66,12 @@ def _alphabet(name):
 def _hits(chars, name):
     al = _alphabet(name.split(MUT)[0])
     return any((not c.isspace()) and c in al for c in chars)
+
+
+def _hits_all(sub, name):
+    """Can the whole separator / pattern ``sub`` occur inside the value the token stands for?"""
+    al = _alphabet(name.split(MUT)[0])
+    return bool(sub) and all(c in al for c in sub)
 
 
 def _mutate(s, span, how):
@@ -95,13 +103,31 @@ def str_hook(base, attr):
                 r = _mutate(r, spans[0], tag)
             return r
         return strip
+    if attr in ("split", "rsplit", "partition", "rpartition"):
+        def split(sep=None, maxsplit=-1):
+            real = getattr(base, attr)
+            r = real(sep) if attr.endswith("partition") else real(sep, maxsplit)
+            if sep is None or not isinstance(sep, str) or sep.isspace():
+                return r
+            hit = [sp for sp in _token_spans(base) if _hits_all(sep, base[sp[0] + 1:sp[1]])]
+            if not hit:
+                return r
+            # the separator may occur inside the value a token stands for: every piece that holds such a token is cut there
+            out = []
+            for piece in r:
+                for sp in reversed(_token_spans(piece)):
+                    if _hits_all(sep, piece[sp[0] + 1:sp[1]]):
+                        piece = _mutate(piece, sp, "%s(%s)" % (attr, sep))
+                out.append(piece)
+            return type(r)(out) if isinstance(r, tuple) else out
+        return split
     if attr == "replace":
         def replace(old, new, count=-1):
             r = base.replace(old, new, count)
             if not isinstance(old, str) or old == new:
                 return r
             for span in reversed(_token_spans(r)):
-                if _hits(old, r[span[0] + 1:span[1]]):
+                if _hits_all(old, r[span[0] + 1:span[1]]):
                     r = _mutate(r, span, "replace(%s)" % old)
             return r
         return replace
@@ -390,6 +416,9 @@ class IndexV:
     def m_iter(self, interp):
         return list(self.labels)
 
+    def m_contains(self, interp, x):
+        return x in self.labels
+
     def m_getitem(self, interp, idx, node):
         if isinstance(idx, (int, slice)):
             r = self.labels[idx]
@@ -414,7 +443,8 @@ class IndexV:
     def m_getattr(self, interp, attr):
         if attr == "values":
             return ArrV(self.labels)
-        if attr in ("unique", "isin", "tolist", "to_list", "to_numpy", "equals"):
+        if attr in ("unique", "isin", "tolist", "to_list", "to_numpy", "equals", "drop", "difference", "union", "intersection",
+                    "append", "sort_values"):
             return BoundExt(self, attr)
         if attr == "is_unique":
             return len(set(map(repr, self.labels))) == len(self.labels)
@@ -432,6 +462,34 @@ class IndexV:
             return MaskV([l in vals for l in self.labels])
         if name == "equals":
             return isinstance(args[0], IndexV) and args[0].labels == self.labels
+        if name in ("drop", "difference", "union", "intersection", "append"):
+            other = args[0] if args else kwargs.get("labels", kwargs.get("other"))
+            other = list(interp.iterate(other)) if not isinstance(other, (str, int)) else [other]
+            if name == "drop":  # order-preserving, unknown labels are an error
+                missing = [o for o in other if o not in self.labels]
+                if missing and kwargs.get("errors", "raise") == "raise":
+                    _raise("KeyError", "%r not found in axis" % missing, node)
+                return IndexV([l for l in self.labels if l not in other])
+            if name == "append":
+                return IndexV(self.labels + other)
+            sort = kwargs.get("sort", None if name != "intersection" else False)
+            if name == "difference":
+                res = [l for l in self.labels if l not in other]
+            elif name == "union":
+                res = self.labels + [o for o in other if o not in self.labels]
+            else:
+                res = [l for l in self.labels if l in other]
+            # pandas set operations return a *sorted* result unless sort=False (intersection: unsorted by default)
+            if sort is not False:
+                try:
+                    res = sorted(set(res)) if name != "intersection" else sorted(res)
+                except TypeError:
+                    pass
+            else:
+                res = [x for i, x in enumerate(res) if x not in res[:i]]
+            return IndexV(res)
+        if name == "sort_values":
+            return IndexV(sorted(self.labels))
         if name == "to_numpy":
             return ArrV(self.labels)
         return list(self.labels)
@@ -551,11 +609,17 @@ class FrameV:
             if key in self.cols:
                 return SeriesV(self.cols[key], self.index)
             _raise("KeyError", repr(key), node)
+        if isinstance(key, (IndexV, list)):
+            names = key.labels if isinstance(key, IndexV) else key
+            missing = [k for k in names if k not in self.cols]
+            if missing:
+                _raise("KeyError", "%r not in index" % missing, node)
+            return FrameV({k: list(self.cols[k]) for k in names}, self.index)
         raise Undecided("frame[%r]" % (key,))
 
     def m_getattr(self, interp, attr):
         if attr == "columns":
-            return list(self.cols)
+            return IndexV(list(self.cols))
         if attr == "shape":
             return (self.nrows(), len(self.cols))
         if attr == "index":
@@ -782,7 +846,12 @@ def make_externals(vfs, listing=None):
             raise Undecided("np.arange with non-integer arguments")
         return ArrV(list(range(*args)))
 
+    def _index(interp, args, kwargs, node):
+        data = args[0] if args else kwargs.get("data", [])
+        return IndexV(list(interp.iterate(data)))
+
     ext.update({
+        "pandas.Index": _index,
         "numpy.arange": _arange,
         "numpy.all": _reduce(all), "numpy.any": _reduce(any), "numpy.sum": _reduce(sum),
         "numpy.count_nonzero": _reduce(lambda b: sum(1 for x in b if x)),
